@@ -197,6 +197,108 @@ func (x *Exec) model(fr *Frame, st *State, fn *ssa.Function, args []Val, site ss
 		ref := x.AllocBacking(st, types.Typ[types.Uint8], &content)
 		res := Ite(Eq(SlBase(s), BVInt(0, 32)), s, MkSlice(ref, BVInt(0, 64), SlLen(s), SlLen(s)))
 		return []Val{bvTV(x.C.Name("cloned", res), fn.Signature.Results().At(0).Type())}, true, nil
+	case "encoding/binary.Read":
+		// binary.Read(r, order, data) for r = *bytes.Reader and data = pointer to a fixed-size value:
+		// io.ReadFull semantics — n = size of *data; fewer than n octets left => error (reader advanced to the end
+		// or left in place when empty), otherwise *data is decoded from the next n octets and the reader advances by n.
+		call, ok := site.(*ssa.Call)
+		if !ok || len(call.Call.Args) != 3 {
+			return nil, false, nil
+		}
+		mr, ok1 := call.Call.Args[0].(*ssa.MakeInterface)
+		md, ok2 := call.Call.Args[2].(*ssa.MakeInterface)
+		if !ok1 || !ok2 || mr.X.Type().String() != "*bytes.Reader" {
+			return nil, false, nil
+		}
+		pt, ok := md.X.Type().Underlying().(*types.Pointer)
+		if !ok {
+			return nil, false, nil
+		}
+		bits, ok := x.keyBits(pt.Elem())
+		if !ok || bits%8 != 0 {
+			return nil, false, nil
+		}
+		big := strings.Contains(call.Call.Args[1].Type().String(), "bigEndian")
+		if mo, ok := call.Call.Args[1].(*ssa.MakeInterface); ok {
+			big = strings.Contains(mo.X.Type().String(), "bigEndian")
+		}
+		x.trust("encoding/binary.Read on *bytes.Reader with fixed-size data (io.ReadFull semantics, little/big endian)")
+		n := int64(bits / 8)
+		rv, err := x.valueOf(fr, mr.X)
+		if err != nil {
+			return nil, true, err
+		}
+		rp := rv.(PtrV)
+		dv, err := x.valueOf(fr, md.X)
+		if err != nil {
+			return nil, true, err
+		}
+		dp := dv.(PtrV)
+		x.obligation(fr, site, "nil", st.PC, Not(Eq(rp.Base, BVInt(0, 32))), "binary.Read on nil *bytes.Reader")
+		x.C.Assume(Implies(x.absPC(st.PC), Not(Eq(rp.Base, BVInt(0, 32)))), "continuing past nil check")
+		rt := pt // keep names distinct
+		_ = rt
+		readerT := mr.X.Type().Underlying().(*types.Pointer).Elem()
+		rst := readerT.Underlying().(*types.Struct)
+		fieldIdx := func(name string) int {
+			for i := 0; i < rst.NumFields(); i++ {
+				if rst.Field(i).Name() == name {
+					return i
+				}
+			}
+			return -1
+		}
+		fs, fi := fieldIdx("s"), fieldIdx("i")
+		if fs < 0 || fi < 0 {
+			return nil, false, nil
+		}
+		sPtr := rp
+		sPtr.Path = append(append([]Step{}, rp.Path...), Step{IsField: true, Field: fs})
+		sPtr.Typ = types.NewPointer(rst.Field(fs).Type())
+		iPtr := rp
+		iPtr.Path = append(append([]Step{}, rp.Path...), Step{IsField: true, Field: fi})
+		iPtr.Typ = types.NewPointer(rst.Field(fi).Type())
+		sv, err := x.Load(st, sPtr)
+		if err != nil {
+			return nil, true, err
+		}
+		iv, err := x.Load(st, iPtr)
+		if err != nil {
+			return nil, true, err
+		}
+		s, i := sv.(TV).T, iv.(TV).T
+		remaining := x.C.Name("brrem", bvBin("bvsub", SlLen(s), i))
+		enough := x.C.Name("brok", bvCmp("bvsge", remaining, BVInt(n, 64)))
+		// new position: i+n when enough, len(s) otherwise (ReadFull drains what is there)
+		newI := Ite(enough, bvBin("bvadd", i, BVInt(n, 64)), Ite(bvCmp("bvsgt", remaining, BVInt(0, 64)), SlLen(s), i))
+		if err := x.Store(st, iPtr, TV{T: x.C.Name("bri", newI), Typ: rst.Field(fi).Type()}); err != nil {
+			return nil, true, err
+		}
+		// decoded value
+		r, hs := x.elemRegion(types.Typ[types.Uint8])
+		h := x.heapGet(st, r, hs)
+		arr := x.C.Name("brsrc", Select(h, SlBase(s)))
+		off := x.C.Name("broff", bvBin("bvadd", SlOff(s), i))
+		val, _ := x.fromBytes(pt.Elem(), arr, off, 0, big)
+		old, err := x.Load(st, dp)
+		if err != nil {
+			return nil, true, err
+		}
+		oldT, err := x.toTerm(old)
+		if err != nil {
+			return nil, true, err
+		}
+		// on a short read the destination may have been partially written: unknown value
+		junk := x.C.Fresh("brjunk", val.Sort)
+		_ = oldT
+		if err := x.Store(st, dp, TV{T: x.C.Name("brval", Ite(enough, val, junk)), Typ: pt.Elem()}); err != nil {
+			return nil, true, err
+		}
+		eid := x.C.Fresh("err", SBV(64))
+		x.C.Assume(Not(Eq(eid, BVInt(0, 64))), "error values are non-nil")
+		tid := BVInt(int64(x.C.TypeID(types.Universe.Lookup("error").Type())), 32)
+		errv := Ite(enough, x.C.zeroOfSort(SIface, nil), App(SIface, "mk-iface", tid, eid))
+		return []Val{bvTV(x.C.Name("brerr", errv), fn.Signature.Results().At(0).Type())}, true, nil
 	case "math.Sqrt":
 		x.C.Note("math.Sqrt is an uninterpreted function")
 		return []Val{bvTV(App(SF64, "f64_sqrt", T(0)), types.Typ[types.Float64])}, true, nil
@@ -210,6 +312,56 @@ func (x *Exec) model(fr *Frame, st *State, fn *ssa.Function, args []Val, site ss
 		return []Val{bvTV(x.C.Fresh("str", SStr), types.Typ[types.String])}, true, nil
 	}
 	return nil, false, nil
+}
+
+// fromBytes decodes a fixed-size value of type t from octets arr[off+k...] (k starts at byte offset `at`);
+// returns the term and the number of octets consumed.
+func (x *Exec) fromBytes(t types.Type, arr, off Term, at int64, big bool) (Term, int64) {
+	switch u := t.Underlying().(type) {
+	case *types.Basic:
+		w, _ := intWidth(u)
+		if u.Kind() == types.Bool {
+			return Not(Eq(Select(arr, bvBin("bvadd", off, BVInt(at, 64))), BVInt(0, 8))), 1
+		}
+		n := int64(w / 8)
+		var cur *Term
+		for k := int64(0); k < n; k++ {
+			b := Select(arr, bvBin("bvadd", off, BVInt(at+k, 64)))
+			if cur == nil {
+				cur = &b
+			} else {
+				var c Term
+				if big {
+					c = Concat(*cur, b)
+				} else {
+					c = Concat(b, *cur)
+				}
+				cur = &c
+			}
+		}
+		return *cur, n
+	case *types.Array:
+		es := x.C.SortOf(u.Elem())
+		out := ConstArray(SArr(SIdx, es), x.C.Zero(u.Elem()))
+		used := int64(0)
+		for i := int64(0); i < u.Len(); i++ {
+			e, n := x.fromBytes(u.Elem(), arr, off, at+used, big)
+			out = Store(out, BVInt(i, 64), e)
+			used += n
+		}
+		return x.C.Name("fb", out), used
+	case *types.Struct:
+		si := x.C.StructInfo(t)
+		var args []Term
+		used := int64(0)
+		for i := 0; i < u.NumFields(); i++ {
+			e, n := x.fromBytes(u.Field(i).Type(), arr, off, at+used, big)
+			args = append(args, e)
+			used += n
+		}
+		return App(si.Sort, si.Ctor, args...), used
+	}
+	return x.C.Fresh("fb", x.C.SortOf(t)), 0
 }
 
 func (x *Exec) modelInvoke(fr *Frame, st *State, call *ssa.CallCommon, recv TV, args []Val) []Val {
